@@ -383,27 +383,7 @@ func ruleChildValidators(r *Run, rule, typ string) {
 			}
 		case *ast.RangeStmt:
 			for _, f := range need {
-				if _, m := FieldPath(info, x.X, owner, f); m && appendsToValidators(info, x.Body, x.Value) {
-					got[f] = true
-				}
-			}
-		case *ast.ForStmt:
-			// for i := 0; i < len(c.F); i++ { vals[i] = c.F[i] }
-			for _, f := range need {
-				mention := false
-				ast.Inspect(x.Body, func(m ast.Node) bool {
-					if as, ok := m.(*ast.AssignStmt); ok && len(as.Rhs) == 1 {
-						if ie, ok := ast.Unparen(as.Rhs[0]).(*ast.IndexExpr); ok {
-							if _, ok := FieldPath(info, ie.X, owner, f); ok {
-								if tv, ok := info.Types[as.Lhs[0]]; ok && ShortType(tv.Type) == "workflow.validator" {
-									mention = true
-								}
-							}
-						}
-					}
-					return true
-				})
-				if mention {
+				if _, m := FieldPath(info, x.X, owner, f); m && storesElemAsValidator(info, x) {
 					got[f] = true
 				}
 			}
@@ -420,19 +400,36 @@ func ruleChildValidators(r *Run, rule, typ string) {
 	r.Check(rule, "children-validated:"+typ, fn.Decl.Pos(), len(missing) == 0 && len(need) > 0, "%s.validate does not hand on validators for %v: the objects held there are never validated (nor their keys checked)", owner, missing)
 }
 
-func appendsToValidators(info *types.Info, body *ast.BlockStmt, elem ast.Expr) bool {
+// storesElemAsValidator: the body of the loop hands the current element on as a validator
+// (appended to, or stored by index in, a []validator).
+func storesElemAsValidator(info *types.Info, rs *ast.RangeStmt) bool {
+	isValidator := func(e ast.Expr) bool {
+		tv, ok := info.Types[e]
+		return ok && ShortType(tv.Type) == "workflow.validator"
+	}
 	found := false
-	ast.Inspect(body, func(n ast.Node) bool {
-		if c, ok := n.(*ast.CallExpr); ok {
-			if id, ok := c.Fun.(*ast.Ident); ok && id.Name == "append" && len(c.Args) == 2 && elem != nil && SameObj(info, c.Args[1], elem) {
-				if tv, ok := info.Types[c.Args[0]]; ok {
+	ast.Inspect(rs.Body, func(n ast.Node) bool {
+		switch x := n.(type) {
+		case *ast.CallExpr:
+			if id, ok := x.Fun.(*ast.Ident); ok && id.Name == "append" && len(x.Args) >= 2 {
+				if tv, ok := info.Types[x.Args[0]]; ok {
 					if sl, ok := tv.Type.Underlying().(*types.Slice); ok && ShortType(sl.Elem()) == "workflow.validator" {
-						found = true
+						for _, a := range x.Args[1:] {
+							if IsLoopElem(info, rs, a) {
+								found = true
+							}
+						}
 					}
 				}
 			}
+		case *ast.AssignStmt:
+			for i, l := range x.Lhs {
+				if len(x.Rhs) == len(x.Lhs) && isValidator(l) && IsLoopElem(info, rs, x.Rhs[i]) {
+					found = true
+				}
+			}
 		}
-		return true
+		return !found
 	})
 	return found
 }
